@@ -12,7 +12,7 @@ use serde::{Deserialize, Serialize};
 use serde_json::Value;
 use std::io::Cursor;
 
-pub const RULE: &str = "proptest-generated logical messages (every header field from boundary ∪ byte-distinct ∪ uniform mixtures, payload lengths from boundary set ∪ uniform 0..64KiB, body capacity in each relation to 48+q+b) emitted through every route and compared with an independent layout-table encoder, then parsed back through every parser; non-trivial = (q>0 or b>0) and at least 4 header fields non-zero; distinct = distinct case hash";
+pub const RULE: &str = "proptest-generated logical messages (every header field from boundary ∪ byte-distinct ∪ uniform mixtures, payload lengths from boundary set ∪ uniform 0..64KiB, body capacity in each relation to 48+q+b) emitted through every route and compared with an independent layout-table encoder, then parsed back through every parser; (wire) verbatim frames, optionally followed by trailing bytes, decoded and re-emitted through to_vec / write_message / into_wire_bytes / MessageView::to_message must reproduce the input frame; (net-routes) the requests of Client / AsyncClient / WebSocketClient and the responses of Server / AsyncServer / WebSocket server are captured by scripted peers and compared byte-for-byte with the layout-table image; non-trivial = (q>0 or b>0) and at least 4 header fields non-zero; distinct = distinct case hash";
 
 #[derive(Debug, Clone, Copy, Serialize, Deserialize, Hash, PartialEq, Eq)]
 pub enum CapMode {
